@@ -65,7 +65,7 @@ func init() {
 	})
 	register(&Property{
 		ID: "C19",
-		Explanation: "Decides the guards around existing files: (create-file) createFile reports success only through ensureSize (size is made right: truncate / sparse truncate), and an existing object is reused only on the IsRegular()==true and Links<=1 edges — otherwise it is removed and re-created with O_EXCL; (sparse-off-for-existing) in restoreFiles every path on which sparse writing may have been enabled for a file that already existed (file.state != nil) passes `file.sparse = false` before the iteration ends, and that store happens only for existing files; (overwrite-exhaustive) shouldOverwrite, evaluated for each OverwriteBehavior constant: always/if-changed never look at the existing file and never reach the 'unknown overwrite behavior' panic, if-newer/never examine it and are handled, never yields true only for ErrNotExist; the restore callback of withOverwriteCheck runs only on shouldOverwrite==true without error; (reuse-only-if-file-survives) verifyFile hands out a file state (the list of blobs already present, which the restorer then skips) only for regular files, and a state that still needs a restore only for targets with a single hard link — createFile replaces a target with several links by a new empty file, so reusing matches there leaves zeros where the skipped blobs belong; this is the genuine defect found with the seeded-change probe for this property, now fixed; (verify-reads-whole-blob) in verifyFile the hash is taken of the buffer ReadAt filled and only behind ReadAt's nil-error edge (the scratch buffer is reused between blobs and files, a short read leaves stale bytes in it), and the per-blob verdict stored is id.Equal(that hash) (added after a seeded change that hashed before the short-read test); (examined-or-nothing-reused) after a verifyFile error other than 'does not exist' the restore callback gets a non-nil state, which switches sparse writing off — an unreadable existing target was treated as missing and kept its old bytes in the zero runs (genuine defect, demonstrated, fixed); (link-target-only-when-restored) a name enters the hard-link index only inside the callback of withOverwriteCheck, i.e. when it is really restored — with --overwrite never/if-newer the other names were linked to an existing file that had been left untouched (genuine defect, demonstrated, fixed). Not decided: equality of content and size after restore (runtime values).",
+		Explanation: "Decides the guards around existing files: (create-file) createFile reports success only through ensureSize (size is made right: truncate / sparse truncate), and an existing object is reused only on the IsRegular()==true and Links<=1 edges — otherwise it is removed and re-created with O_EXCL; (sparse-off-for-existing) in restoreFiles every path on which sparse writing may have been enabled for a file that already existed (file.state != nil) passes `file.sparse = false` before the iteration ends, and that store happens only for existing files; (overwrite-exhaustive) shouldOverwrite, evaluated for each OverwriteBehavior constant: always/if-changed never look at the existing file and never reach the 'unknown overwrite behavior' panic, if-newer/never examine it and are handled, never yields true only for ErrNotExist; the restore callback of withOverwriteCheck runs only on shouldOverwrite==true without error; (reuse-only-if-file-survives) verifyFile hands out a file state (the list of blobs already present, which the restorer then skips) only for regular files, and a state that still needs a restore only for targets with a single hard link — createFile replaces a target with several links by a new empty file, so reusing matches there leaves zeros where the skipped blobs belong; this is the genuine defect found with the seeded-change probe for this property, now fixed; (verify-reads-whole-blob) in verifyFile the hash is taken of the buffer ReadAt filled and only behind ReadAt's nil-error edge (the scratch buffer is reused between blobs and files, a short read leaves stale bytes in it), and the per-blob verdict stored is id.Equal(that hash) (added after a seeded change that hashed before the short-read test); (examined-or-nothing-reused) after a verifyFile error other than 'does not exist' the restore callback gets a non-nil state, which switches sparse writing off — an unreadable existing target was treated as missing and kept its old bytes in the zero runs (genuine defect, demonstrated, fixed); (link-target-only-when-restored) a name enters the hard-link index only inside the callback of withOverwriteCheck, i.e. when it is really restored — with --overwrite never/if-newer the other names were linked to an existing file that had been left untouched (genuine defect, demonstrated, fixed); (restore-errors-propagate) at each call site of the functions that carry file content to the target (restoreFiles, downloadPack, downloadBlobs, writeToFile, createFile, ensureSize, the tree walk, RestoreTo, VerifyFiles …) the error is bound and, from its non-nil edge, no return is reached unless it was returned or handed to the error callback — a restore in which a write failed is not a successful one (added after the mutant sweep). Not decided: equality of content and size after restore (runtime values).",
 		Assumptions: commonAssumptions,
 		Technique:   "static analysis: CFG edge cuts + specialised path evaluation per overwrite mode (go/ssa)",
 		Run: func(c *eng.Ctx) {
@@ -76,8 +76,11 @@ func init() {
 			ruleVerifyReadsWholeBlob(c)
 			ruleExaminedOrNothingReused(c)
 			ruleLinkTargetOnlyWhenRestored(c)
+			ruleRestoreErrorsPropagate(c)
 		},
 		Controls: []Control{
+			{Name: "failed-pack-download-ignored", File: "internal/restorer/filerestorer.go",
+				Old: "			if err := r.downloadPack(ctx, pack); err != nil {\n				return err\n			}\n", New: "			if err := r.downloadPack(ctx, pack); err != nil {\n				debug.Log(\"download failed: %v\", err)\n			}\n", Rule: "restore-errors-propagate"},
 			{Name: "unexaminable-target-treated-as-missing", File: "internal/restorer/restorer.go",
 				Old: "		if err != nil && !errors.Is(err, os.ErrNotExist) {\n			// the target exists but cannot be examined.", New: "		if err != nil && errors.Is(err, os.ErrNotExist) {\n			// the target exists but cannot be examined.", Rule: "examined-or-nothing-reused"},
 			{Name: "link-target-registered-before-overwrite-check", File: "internal/restorer/restorer.go",
@@ -118,7 +121,12 @@ func init() {
 		Explanation: "Decides the 'if' direction structurally: VerifyFiles calls verifyFile with failFast=true and trustMtime=false; with these arguments fixed (specialised path evaluation) verifyFile returns a nil error only on the node.Size == fi.Size() edge and, from every ReadAt, only on the read's success edge and the Equal(restic.Hash(buf)) edge — also before reading the next blob — and the hashed buffer is the one ReadAt filled; no nil error is returned before the loop over node.Content was entered (added after a seeded change that returned early for hard-linked files), the hash is taken only of a completely read buffer (verify-reads-whole-blob); --verify checks the name registered in the hard-link index on behalf of all names of a file, so a name is registered only when it is really restored (link-target-only-when-restored; genuine defect, fixed: the other names were linked to a skipped existing file and --verify did not look at them); the error goes to the restorer's error handler, which counts it, and runRestore exits 0 after --verify only if VerifyFiles returned nil and the error counter is zero. Not decided: which files are selected for verification, and the converse direction (no false reports).",
 		Assumptions: commonAssumptions,
 		Technique:   "static analysis: specialised (constant-argument) path-sensitive reachability on verifyFile + error flow to the exit status (go/ssa)",
-		Run:         func(c *eng.Ctx) { ruleVerifyStrict(c); ruleVerifyReadsWholeBlob(c); ruleLinkTargetOnlyWhenRestored(c) },
+		Run: func(c *eng.Ctx) {
+			ruleVerifyStrict(c)
+			ruleVerifyReadsWholeBlob(c)
+			ruleLinkTargetOnlyWhenRestored(c)
+			ruleRestoreErrorsPropagate(c)
+		},
 		Controls: []Control{
 			{Name: "verify-skips-hard-linked-files", File: "internal/restorer/restorer.go",
 				Old: "	matches := make([]bool, len(node.Content))\n	var offset int64", New: "	if fs.ExtendedStat(fi).Links > 1 {\n		return nil, buf, nil\n	}\n	matches := make([]bool, len(node.Content))\n	var offset int64", Rule: "verify-strict"},
